@@ -267,7 +267,7 @@ func vh_C03_flow_two() {
 		jar = append(jar, o.cookie)
 	}
 	sess := &sessionsapi.SessionState{Email: "a@b.c", User: "u"}
-	f.callback(l.state, jar, sess)
+	rw1 := f.callback(l.state, jar, sess)
 	saved := f.store.saveCalls > 0
 	if saved {
 		verifReach("session-established")
@@ -282,6 +282,26 @@ func vh_C03_flow_two() {
 		if l1.cookie.Name != l2.cookie.Name {
 			verifAssert("C03.two.converse-per-request", saved)
 			verifReach("converse-per-request")
+			if hasOther && saved {
+				// ... in any order: the browser applies the first callback's response, then the
+				// other outstanding login comes back
+				var jar2 []*http.Cookie
+				for _, c := range jar {
+					kept := true
+					for _, sc := range verifSetCookies(rw1.Header()) {
+						if sc.Name == c.Name && sc.MaxAge < 0 {
+							kept = false
+						}
+					}
+					if kept {
+						jar2 = append(jar2, c)
+					}
+				}
+				before := f.store.saveCalls
+				f.callback(o.state, jar2, sess)
+				verifAssert("C03.two.other-login-completes-afterwards", f.store.saveCalls == before+1)
+				verifReach("both-completed")
+			}
 		}
 	}
 }
